@@ -30,6 +30,25 @@ static TPM_RESULT snap_restore(Snap *s, World *w) {
 static void snap_free(Snap *s) { blob_clear(&s->perm); blob_clear(&s->vol); for (int i = 0; i < 3; i++) blob_clear(&s->st[i]); if (s->valid) c02_world_free(&s->w); s->valid = 0; }
 
 /* ------------------------------- C03 ------------------------------- */
+/* a failed authorization of a DA-protected NV index (twice: the first DA-protected use after Startup answers RETRY) */
+static void c03_da_fail(World *w, Buf *b) {
+    for (int i = 0; i < w->nnv; i++) if (!(w->nv[i].attrs & (1u << 25))) {
+        for (int k = 0; k < 2; k++) { cmd_begin(b, ST_SESSIONS, CC_NV_Read); b_u32(b, w->nv[i].idx); b_u32(b, w->nv[i].idx); auth_pw_s(b, "bad!"); b_u16(b, 1); b_u16(b, 0); w_run(w, b); }
+        return;
+    }
+}
+/* value a brand-new NV counter takes (defines, increments, reads and deletes a probe index) */
+static uint64_t c03_counter_probe(World *w, Buf *b) {
+    uint64_t v = 0;
+    cmd_begin(b, ST_SESSIONS, CC_NV_DefineSpace); b_u32(b, RH_OWNER); auth_pw_s(b, w->ownerAuth);
+    b_u16(b, 0); b_u16(b, 14); b_u32(b, 0x014000FEu); b_u16(b, ALG_SHA256); b_u32(b, (1u << 1) | (1u << 17) | (1u << 4)); b_u16(b, 0); b_u16(b, 8);
+    if (run(b).rc != 0) return 0;
+    cmd_begin(b, ST_SESSIONS, CC_NV_Increment); b_u32(b, RH_OWNER); b_u32(b, 0x014000FEu); auth_pw_s(b, w->ownerAuth); run(b);
+    cmd_begin(b, ST_SESSIONS, CC_NV_Read); b_u32(b, RH_OWNER); b_u32(b, 0x014000FEu); auth_pw_s(b, w->ownerAuth); b_u16(b, 8); b_u16(b, 0);
+    Rsp r = run(b); if (r.rc == 0 && r.len >= 10 + 4 + 2 + 8) v = g64(r.p + 16);
+    cmd_begin(b, ST_SESSIONS, CC_NV_UndefineSpace); b_u32(b, RH_OWNER); b_u32(b, 0x014000FEu); auth_pw_s(b, w->ownerAuth); run(b);
+    return v;
+}
 static void c03_cut(World *w, Buf *b, int pos, int variant) {
     Snap s; memset(&s, 0, sizeof s);
     if (snap_take(&s, w)) { tr("cut pos=%d snap=fail", pos); return; }
@@ -41,11 +60,17 @@ static void c03_cut(World *w, Buf *b, int pos, int variant) {
     if (variant) { sr = tpm2_shutdown(b, variant == 1 ? 0 : 1);     /* 1: Shutdown(CLEAR)  2: Shutdown(STATE) */
         if (sr.rc != 0) { variant = 0; mode = 1; } }                 /* e.g. Shutdown(STATE) refused after PCR_Allocate: plain power cut */
     battery(w, b, mode, d1);
+    /* what would a new counter start at?  (probe on the live TPM; the state is rolled back to before the probe) */
+    uint64_t c1 = 0, c2 = 0;
+    { Snap s2; memset(&s2, 0, sizeof s2);
+      if (!variant && !snap_take(&s2, w)) { c1 = c03_counter_probe(w, b); if (snap_restore(&s2, w)) die("C03: probe rollback failed"); snap_free(&s2); } }
     TPM_RESULT mi = tpm2_powercycle();
     Rsp st = tpm2_startup(b, variant == 2 ? 1 : 0);
     World wr = *w; wr.nctx = 0; wr.nobj = 0; wr.nsess = 0; wr.nseq = 0;
     battery(&wr, b, mode, d2);
-    tr("cut pos=%d variant=%d shutdown_rc=%u maininit=%u startup_rc=%u equal=%d", pos, variant, sr.rc, mi, st.rc, !memcmp(d1, d2, 32));
+    if (!variant && st.rc == 0) c2 = c03_counter_probe(&wr, b);
+    tr("cut pos=%d variant=%d shutdown_rc=%u maininit=%u startup_rc=%u equal=%d ctr_live=%llu ctr_restart=%llu", pos, variant, sr.rc, mi, st.rc, !memcmp(d1, d2, 32),
+       (unsigned long long)c1, (unsigned long long)c2);
     TPM_RESULT rr = snap_restore(&s, w);
     if (rr) die("C03: cannot resume from own snapshot: %u", rr);
     snap_free(&s);
@@ -60,7 +85,8 @@ static void scen_c03(int histories, int maxops, int cut_pct) {
         tr("fresh profile=%d", h % 3);
         int n = 8 + rnd(maxops);
         for (int i = 0; i < n; i++) {
-            if (chance(40)) clock_advance_ms((uint64_t[]){10, 999, 4096, 60000, 3600000, 2000000}[rnd(6)]);
+            if (chance(40)) clock_advance_ms((uint64_t[]){10, 999, 4096, 60000, 3600000, 2000000, 20000000}[rnd(7)]);
+            if (chance(10)) c03_da_fail(&w, &b);
             persist_getimg(&img0);
             long ops0 = w.ops;
             gen_op(&w, &b);
@@ -73,6 +99,18 @@ static void scen_c03(int histories, int maxops, int cut_pct) {
             if (chance(cut_pct)) c03_cut(&w, &b, i, rnd(3));
         }
         c03_cut(&w, &b, n, 0);
+        /* drill: a counter is incremented and then deleted; its high-water mark must survive the power cut that follows */
+        if (h % 2 == 0) {
+            cmd_begin(&b, ST_SESSIONS, CC_NV_DefineSpace); b_u32(&b, RH_OWNER); auth_pw_s(&b, w.ownerAuth);
+            b_u16(&b, 0); b_u16(&b, 14); b_u32(&b, 0x014000FDu); b_u16(&b, ALG_SHA256); b_u32(&b, (1u << 1) | (1u << 17) | (1u << 4)); b_u16(&b, 0); b_u16(&b, 8);
+            if (run(&b).rc == 0) {
+                int k = 2 + rnd(6);
+                for (int q = 0; q < k; q++) { cmd_begin(&b, ST_SESSIONS, CC_NV_Increment); b_u32(&b, RH_OWNER); b_u32(&b, 0x014000FDu); auth_pw_s(&b, w.ownerAuth); run(&b); }
+                cmd_begin(&b, ST_SESSIONS, CC_NV_UndefineSpace); b_u32(&b, RH_OWNER); b_u32(&b, 0x014000FDu); auth_pw_s(&b, w.ownerAuth); run(&b);
+                if (chance(50)) { cmd_begin(&b, ST_NO_SESSIONS, CC_GetRandom); b_u16(&b, 4); run(&b); }
+                c03_cut(&w, &b, n + 1, 0);
+            }
+        }
     }
     blob_clear(&img0); blob_clear(&img1); w_reset(&w); b_free(&b);
 }
@@ -119,6 +157,88 @@ static void c05_fail_probe(World *w, Buf *b, Buf *last) {
     }
     c02_world_free(&wc); blob_clear(&img0); blob_clear(&img1); blob_clear(&st0); b_free(&m);
 }
+/* twin oracle for a failing command: the TPM after the failed command must answer a continuation exactly like the TPM
+ * that never saw it (resumed from a snapshot taken just before) */
+static void c05_twin_fail(World *w, Buf *b, const uint8_t *cmd, uint32_t n, const char *what) {
+    Snap s; memset(&s, 0, sizeof s);
+    if (snap_take(&s, w)) return;
+    uint64_t rng = g_rng;
+    Rsp r = run_raw(cmd, n);
+    uint32_t rc = r.rc, cc = n >= 10 ? g32(cmd + 6) : 0;
+    if (rc == 0 || c05_is_da_rc(rc)) { tr("ftwin what=%s cc=%x rc=%u skipped=1", what, cc, rc); if (rc == 0) w->ops = -1; snap_free(&s); return; }
+    uint8_t d1[32], d2[32];
+    World w1; c02_world_copy(&w1, w);
+    c02_continuation(&w1, b, 4, d1);
+    static uint32_t log1[RESP_LOG_MAX][3]; memcpy(log1, g_resp_log, sizeof log1); long n1 = g_resp_count;
+    if (snap_restore(&s, w)) die("C05: cannot resume from own snapshot");
+    g_rng = rng;
+    World w2; c02_world_copy(&w2, w);
+    c02_continuation(&w2, b, 4, d2);
+    long fd = -1; if (memcmp(d1, d2, 32)) for (long i = 0; i < RESP_LOG_MAX && i < n1; i++) if (memcmp(log1[i], g_resp_log[i], 12)) { fd = i; break; }
+    tr_begin("ftwin what=%s cc=%x rc=%u equal=%d", what, cc, rc, !memcmp(d1, d2, 32));
+    if (fd >= 0) fprintf(g_tr, " first_diff=%ld cc1=%x rc1=%u rc2=%u", fd, log1[fd][0], log1[fd][1], g_resp_log[fd][1]);
+    tr_end();
+    c02_world_free(w); *w = w2; snap_free(&s);
+}
+/* failing commands that byte mutation rarely produces */
+static void c05_semantic_fail(World *w, Buf *b) {
+    Buf c = {0};
+    switch (rnd(5)) {
+    case 0: { /* PolicyPCR with a wrong digest on a fresh, real (non-trial) policy session */
+        while (w->nsess >= 3) op_flush_session(w, b);
+        { uint8_t nonce[16] = {0};
+          cmd_begin(b, ST_NO_SESSIONS, CC_StartAuthSession); b_u32(b, RH_NULL); b_u32(b, RH_NULL); b_2b(b, nonce, 16); b_u16(b, 0); b_u8(b, 1); b_u16(b, ALG_NULL); b_u16(b, ALG_SHA256);
+          Rsp r = w_run(w, b);
+          if (r.rc != 0 || r.len < 14) { b_free(&c); return; }
+          w->sess[w->nsess].h = g32(r.p + 10); w->sess[w->nsess].policy = 1; w->nsess++; }
+        int si = w->nsess - 1;
+        /* make sure the PCR update counter is not 0 */
+        cmd_begin(b, ST_SESSIONS, CC_PCR_Extend); b_u32(b, 10); auth_pw_s(b, ""); b_u32(b, 1); b_u16(b, ALG_SHA256); for (int q = 0; q < 32; q++) b_u8(b, 1); run(b);
+        cmd_begin(&c, ST_NO_SESSIONS, CC_PolicyPCR); b_u32(&c, w->sess[si].h); b_u16(&c, 32); for (int q = 0; q < 32; q++) b_u8(&c, rnd(256));
+        b_u32(&c, 1); b_u16(&c, ALG_SHA256); b_u8(&c, 3); b_u8(&c, 0); b_u8(&c, 4); b_u8(&c, 0);
+        b_put32(&c, 2, (uint32_t)c.n); c05_twin_fail(w, b, c.p, (uint32_t)c.n, "policypcr-wrong-digest"); break; }
+    case 1: { if (!w->nnv) break; WNv *n = &w->nv[rnd(w->nnv)];
+        cmd_begin(&c, ST_SESSIONS, CC_NV_Write); b_u32(&c, RH_OWNER); b_u32(&c, n->idx); auth_pw_s(&c, w->ownerAuth); b_2b(&c, "xx", 2); b_u16(&c, n->size);
+        b_put32(&c, 2, (uint32_t)c.n); c05_twin_fail(w, b, c.p, (uint32_t)c.n, "nv-write-range"); break; }
+    case 2: { cmd_begin(&c, ST_SESSIONS, CC_PCR_Extend); b_u32(&c, 17); auth_pw_s(&c, ""); b_u32(&c, 1); b_u16(&c, ALG_SHA256); for (int q = 0; q < 32; q++) b_u8(&c, 3);
+        b_put32(&c, 2, (uint32_t)c.n); c05_twin_fail(w, b, c.p, (uint32_t)c.n, "pcr-extend-locality"); break; }
+    case 3: { if (!w->nobj) break; WObj *o = &w->obj[rnd(w->nobj)];
+        cmd_begin(&c, ST_SESSIONS, CC_EvictControl); b_u32(&c, RH_OWNER); b_u32(&c, o->h); auth_pw_s(&c, w->ownerAuth); b_u32(&c, 0x81800001u);
+        b_put32(&c, 2, (uint32_t)c.n); c05_twin_fail(w, b, c.p, (uint32_t)c.n, "evict-wrong-range"); break; }
+    default: { if (!w->nnv) break; WNv *n = &w->nv[rnd(w->nnv)];
+        cmd_begin(&c, ST_SESSIONS, CC_NV_DefineSpace); b_u32(&c, RH_OWNER); auth_pw_s(&c, w->ownerAuth);
+        b_u16(&c, 0); b_u16(&c, 14); b_u32(&c, n->idx); b_u16(&c, ALG_SHA256); b_u32(&c, n->attrs); b_u16(&c, 0); b_u16(&c, n->size);
+        b_put32(&c, 2, (uint32_t)c.n); c05_twin_fail(w, b, c.p, (uint32_t)c.n, "nv-define-existing"); break; }
+    }
+    b_free(&c);
+}
+/* scripted: fill NV with persistent objects until TPM_RC_NV_SPACE, then the failing EvictControl must leave no trace */
+static void c05_nv_full(World *w, Buf *b) {
+    uint8_t uq[2] = {9, 9};
+    Rsp r = w_create_primary(w, b, RH_OWNER, 0, uq, 2, "");
+    if (r.rc != 0) return;
+    uint32_t h = g32(r.p + 10); int n = 0; uint32_t rc = 0;
+    uint8_t d0[32], d1[32];
+    World wc; c02_world_copy(&wc, w); wc.nobj = 0; wc.obj[wc.nobj].h = h; wc.obj[wc.nobj].kind = 0; wc.nobj++;
+    for (n = 0; n < 3000; n++) {
+        cmd_begin(b, ST_SESSIONS, CC_EvictControl); b_u32(b, RH_OWNER); b_u32(b, h); auth_pw_s(b, w->ownerAuth); b_u32(b, 0x81000100u + n);
+        Rsp e = run(b); rc = e.rc;
+        if (rc != 0) break;
+    }
+    int transient_ok = -1;
+    if (rc != 0) { cmd_begin(b, ST_NO_SESSIONS, CC_ReadPublic); b_u32(b, h); transient_ok = run(b).rc == 0; }
+    if (rc != 0) {
+        /* NV is full now: the same request again must fail the same way and leave no trace */
+        battery(&wc, b, 0, d0);
+        cmd_begin(b, ST_SESSIONS, CC_EvictControl); b_u32(b, RH_OWNER); b_u32(b, h); auth_pw_s(b, w->ownerAuth); b_u32(b, 0x81000100u + n);
+        Rsp e = run(b); rc = e.rc;
+        battery(&wc, b, 0, d1);
+    }
+    tr("nvfull persisted=%d rc=%u batt_eq=%d transient_ok=%d", n, rc, rc ? !memcmp(d0, d1, 32) : -1, transient_ok);
+    c02_world_free(&wc);
+    w->ops = -1;   /* the persistent handles are not tracked: end this history */
+}
+
 /* cancellation: the cancel request lands at poll k of an RSA key generation */
 static void c05_cancel(World *w, Buf *b, int k) {
     uint8_t uq[2] = {(uint8_t)k, 7};
@@ -150,12 +270,14 @@ static void scen_c05(int histories, int maxops, int ncancel) {
         tr("hist %d", h); w_reset(&w);
         tpm2_fresh(h % 3 == 0 ? NULL : (h % 3 == 1 ? PROFILE_DEFAULT_V1 : PROFILE_CUSTOM)); tpm2_startup(&b, 0);
         int n = 8 + rnd(maxops);
+        if (h % 6 == 5) { for (int i = 0; i < 5; i++) gen_op(&w, &b); c05_nv_full(&w, &b); continue; }
         if (h < ncancel) { for (int i = 0; i < 4; i++) gen_op(&w, &b); c05_cancel(&w, &b, h == 0 ? -2 : (h == 1 ? -1 : (h < 5 ? h - 2 : (int)rnd(12)))); }
         for (int i = 0; i < n; i++) {
             gen_op(&w, &b);
             b_reset(&last); b_bytes(&last, b.p, b.n);
             for (int k = 0; k < 3; k++) { c05_fail_probe(&w, &b, &last); if (w.ops < 0) break; }
             if (w.ops < 0) break;     /* client view stale: start a new history */
+            if (chance(25)) { c05_semantic_fail(&w, &b); if (w.ops < 0) break; }
         }
     }
     w_reset(&w); b_free(&b); b_free(&last);
